@@ -24,6 +24,15 @@ def growth_exec(rng):
     return ({"name": "growth"}, cmds)
 
 
+def pair_exec(rng):
+    """twice the same scope on a fresh thread: with / without a shrink_to_fit() request in the first one"""
+    t = rng.choice([0, 1, 2])
+    cmds = []
+    for _ in range(rng.randint(1, 3)):
+        cmds.append("s %d pair %d %d %d" % (t, rng.randint(3, 12), rng.choice([1000, 2000, 3000]), rng.randint(0, 1)))
+    return ({"name": "pair"}, cmds)
+
+
 def nesting_exec(rng):
     cmds, depth = [], 0
     t = rng.choice([0, 0, 1])
@@ -182,13 +191,14 @@ def jobs_c14(prop, tier, seed, reduced=False):
     J = []
     if reduced:     # the part other properties' checks run (C01, C05): nesting, races, a few planned schedules
         s = 1 if tier == "quick" else 6
-        execs = known_shapes() + [nesting_exec(rng) for _ in range(8 * s)] + [growth_exec(rng) for _ in range(4 * s)] + [race_exec(rng) for _ in range(20 * s)]
+        execs = known_shapes() + [nesting_exec(rng) for _ in range(8 * s)] + [growth_exec(rng) for _ in range(4 * s)] + [pair_exec(rng) for _ in range(4 * s)] + [race_exec(rng) for _ in range(20 * s)]
         execs += [par_exec(rng, rng.choice([2, 3])) for _ in range(10 * s)] + planned_execs(10 if tier == "quick" else 200, seed)
         return [Job("base", "temp", "TempTrace", execs, "temp", also=("TempListTrace",))]
     for cfg in ("base", "dbg"):
         execs = known_shapes()
         execs += [nesting_exec(rng) for _ in range(12 * s)]
         execs += [growth_exec(rng) for _ in range(6 * s)]
+        execs += [pair_exec(rng) for _ in range(6 * s)]
         execs += [api_exec(rng, rng.choice([2, 3, 4])) for _ in range(30 * s)]
         execs += [par_exec(rng, rng.choice([2, 3, 4])) for _ in range(40 * s)]
         execs += [race_exec(rng) for _ in range(60 * s)]
